@@ -9,7 +9,9 @@ package main
 // match(e). noMatchBefore recognises both, so that rewriting one into the other changes no verdict.
 
 import (
+	"go/token"
 	"regexp"
+	"sort"
 	"strings"
 
 	"golang.org/x/tools/go/ssa"
@@ -227,7 +229,7 @@ func noMatchBefore(fl *Flow, at ssa.Instruction, isList func(string) bool, match
 					continue
 				}
 				hit, miss := b.Succs[hitIdx], b.Succs[1-hitIdx]
-				if reachAvoidFromPlain(hit, 0, func(x ssa.Instruction) bool { return x == at }, func(ssa.Instruction) bool { return false }, map[*ssa.BasicBlock]bool{hit: true}) != nil {
+				if reachWithFlags(b, hit, at) {
 					continue
 				}
 				if scanExitDominates(miss, at) {
@@ -261,22 +263,9 @@ func scanExitDominates(miss *ssa.BasicBlock, at ssa.Instruction) bool {
 		return false
 	}
 	body := hif.Block().Succs[0]
-	seen := map[*ssa.BasicBlock]bool{hdr: true, body: true}
-	work := []*ssa.BasicBlock{body}
-	for len(work) > 0 {
-		b := work[0]
-		work = work[1:]
-		for _, in := range b.Instrs {
-			if in == at {
-				return false
-			}
-		}
-		for _, s := range b.Succs {
-			if !seen[s] {
-				seen[s] = true
-				work = append(work, s)
-			}
-		}
+	// (flag-aware: `found = true; break` followed by `if found { return }` does not reach `at`)
+	if reachWithFlagsStop(hdr, body, at, hdr) {
+		return false
 	}
 	// and `at` is reachable from the header's exit at all
 	return true
@@ -323,4 +312,94 @@ func predicateFacts(fl *Flow, v ssa.Value) ([]Fact, bool) {
 		out = append(out, g)
 	}
 	return out, true
+}
+
+// reachWithFlags: is `at` reachable from the edge pred -> start, where boolean flags set on the way
+// decide later tests? A flag is a phi of constants (`found := false; for … { if hit { found = true;
+// break } }; if found { return }`): entering the phi's block from a predecessor whose incoming value
+// is a constant fixes the flag, and an `if flag` further on follows only the matching branch.
+func reachWithFlags(pred, start *ssa.BasicBlock, at ssa.Instruction) bool {
+	return reachWithFlagsStop(pred, start, at, nil)
+}
+
+// reachWithFlagsStop: as reachWithFlags, never entering block stop.
+func reachWithFlagsStop(pred, start *ssa.BasicBlock, at ssa.Instruction, stop *ssa.BasicBlock) bool {
+	type st struct {
+		b   *ssa.BasicBlock
+		key string
+	}
+	seen := map[st]bool{}
+	var rec func(pred, b *ssa.BasicBlock, asg map[*ssa.Phi]bool) bool
+	rec = func(pred, b *ssa.BasicBlock, asg map[*ssa.Phi]bool) bool {
+		next := make(map[*ssa.Phi]bool, len(asg)+1)
+		for k, v := range asg {
+			next[k] = v
+		}
+		for _, in := range b.Instrs {
+			ph, ok := in.(*ssa.Phi)
+			if !ok {
+				break
+			}
+			for i, p := range b.Preds {
+				if p != pred || i >= len(ph.Edges) {
+					continue
+				}
+				switch {
+				case isBoolConst(ph.Edges[i], true):
+					next[ph] = true
+				case isBoolConst(ph.Edges[i], false):
+					next[ph] = false
+				default:
+					if src, isPhi := ph.Edges[i].(*ssa.Phi); isPhi {
+						if v, known := next[src]; known {
+							next[ph] = v // the flag handed on through a join
+							continue
+						}
+					}
+					delete(next, ph)
+				}
+			}
+		}
+		keys := make([]string, 0, len(next))
+		for ph, v := range next {
+			keys = append(keys, ph.Name()+map[bool]string{true: "+", false: "-"}[v])
+		}
+		sort.Strings(keys)
+		k := st{b, strings.Join(keys, ",")}
+		if seen[k] {
+			return false
+		}
+		seen[k] = true
+		for _, in := range b.Instrs {
+			if in == at {
+				return true
+			}
+		}
+		iff, isIf := b.Instrs[len(b.Instrs)-1].(*ssa.If)
+		for i, s := range b.Succs {
+			if s == stop {
+				continue
+			}
+			if isIf && len(b.Succs) == 2 {
+				cond, truth := iff.Cond, i == 0
+				for {
+					u, ok := cond.(*ssa.UnOp)
+					if !ok || u.Op != token.NOT {
+						break
+					}
+					cond, truth = u.X, !truth
+				}
+				if ph, ok := cond.(*ssa.Phi); ok {
+					if v, known := next[ph]; known && v != truth {
+						continue
+					}
+				}
+			}
+			if rec(b, s, next) {
+				return true
+			}
+		}
+		return false
+	}
+	return rec(pred, start, map[*ssa.Phi]bool{})
 }
